@@ -26,6 +26,9 @@ def jbool (b : Bool) : Json := Json.bool b
 def verdict (prop : String) (k : Bool) (o : Option String) : List (String × Json) :=
   [("k", Json.mkObj [(prop, jbool k)]), ("o", Json.mkObj [(prop, jopt o)])]
 
+/-- `"brief": true` — batch ops then leave out the per-item model outputs (they are repeated inside `fail` entries) -/
+def isBrief (j : Json) : Bool := ((optField j "brief").bind (fun b => b.getBool?.toOption)).getD false
+
 def pair2 (j : Json) : E (Json × Json) := do
   match (← asArr j) with
   | [a, b] => return (a, b)
@@ -75,7 +78,8 @@ def pairK (m i : PairObs) : Bool :=
 /--
 `{"op":"icase","items":[[a,b] | [a,b,c], …], "impl":[[obs_ab] | [obs_ab,obs_bc,obs_ac], …]}`
 obs = `["<12 bits: eqAB eqBA neAB ltAB ltBA leAB leBA gtAB geAB bInA aInB hashEq>", str(A), str(B)]`.
-Answer: `{"model":[…same shape…], "k":{"C18":b}, "o":{"C18":null|clause}, "fail":[{"i":…,"k":b,"o":…}]}`.
+Answer: `{"model":[…same shape…], "k":{"C18":b}, "o":{"C18":null|clause}, "fail":[{"i":…,"k":b,"o":…,"model":…}]}`
+(`"brief":true` omits `model`).
 -/
 def opIcase (j : Json) : E Json := do
   let items ← getArr j "items"
@@ -106,11 +110,11 @@ def opIcase (j : Json) : E Json := do
         | none, [ab, bc, ac] => checkC18Triple ab bc ac
         | none, _ => none
       if !k || o.isSome then
-        fails := fails.push (Json.mkObj [("i", jnat idx), ("k", jbool k), ("o", jopt o)])
+        fails := fails.push (Json.mkObj [("i", jnat idx), ("k", jbool k), ("o", jopt o), ("model", jarr (ms.map jobs))])
         kAll := kAll && k
         if oFirst.isNone then oFirst := o
     idx := idx + 1
-  let base := [("model", Json.arr models)]
+  let base := if isBrief j then [] else [("model", Json.arr models)]
   if implArr.isSome then
     return Json.mkObj (base ++ verdict "C18" kAll oFirst ++ [("fail", Json.arr fails)])
   else return Json.mkObj base
@@ -182,7 +186,8 @@ def bagRun {V : Type} [DecidableEq V] (le : V → V → Bool) (vp : V → String
     let a ← getRec ia
     let b ← getRec ib
     let m := modelBagObs strLeS le reprKey vp a b
-    out := out.push (jarr [Json.str (String.ofList [bit m.eqAB, bit m.eqBA, bit m.eqAB2]), jnat m.lenA2, Json.str m.reprA2])
+    if !isBrief j then
+      out := out.push (jarr [Json.str (String.ofList [bit m.eqAB, bit m.eqBA, bit m.eqAB2]), jnat m.lenA2, Json.str m.reprA2])
     if let (some ir, some ip) := (implRecs, implPairs) then
       match (← asArr (ip.getD idx Json.null)) with
       | [bits, l2, r2] =>
@@ -196,13 +201,14 @@ def bagRun {V : Type} [DecidableEq V] (le : V → V → Bool) (vp : V → String
           let k := o == m
           let oc := checkC17 a b o
           if !k || oc.isSome then
-            fails := fails.push (Json.mkObj [("i", jnat idx), ("k", jbool k), ("o", jopt oc)])
+            fails := fails.push (Json.mkObj [("i", jnat idx), ("k", jbool k), ("o", jopt oc),
+              ("model", jarr [Json.str (String.ofList [bit m.eqAB, bit m.eqBA, bit m.eqAB2]), jnat m.lenA2, Json.str m.reprA2])])
             kAll := kAll && k
             if oFirst.isNone then oFirst := oc
         | _ => throw "bag: 3 bits expected"
       | _ => throw "bag: impl pair = [bits, lenA2, reprA2|null]"
     idx := idx + 1
-  let base := [("model", Json.mkObj [("recs", jarr (mrecs.map (fun m => jarr [jnat m.1, Json.str m.2]))), ("pairs", Json.arr out)])]
+  let base := if isBrief j then [] else [("model", Json.mkObj [("recs", jarr (mrecs.map (fun m => jarr [jnat m.1, Json.str m.2]))), ("pairs", Json.arr out)])]
   if impl.isSome then return Json.mkObj (base ++ verdict "C17" kAll oFirst ++ [("fail", Json.arr fails)])
   else return Json.mkObj base
 
